@@ -87,4 +87,179 @@ theorem valFit_shape (c : Int) (p : Nat) :
   · simp [h1]
   · by_cases h2 : fitsI128 c = true <;> simp [h1, h2]
 
+theorem valFit_ne_any (c : Int) (p : Nat) : Spec.valFit c p ≠ .any := by
+  rw [valFit_eq]
+  by_cases h1 : c = I128_MIN
+  · simp [h1]
+  · by_cases h2 : fitsI128 c = true <;> simp [h1, h2]
+
+/-! ### operator / checked-variant agreement: the generic part
+An operator is its checked variant with `None` turned into the overflow panic (`Outcome.ofOption .overflow` for a checked variant
+that cannot panic, `panicOnNone` for one that is itself an `Outcome`, `opOfChecked` / `checkedOfChecked` when a zero-divisor test
+comes first); these lemmas read such an equation in both directions. -/
+
+theorem ofOption_eq_ok_iff {α} (k : PanicKind) (o : Option α) (a : α) : Outcome.ofOption k o = .ok a ↔ o = some a := by
+  cases o <;> simp [Outcome.ofOption]
+
+theorem ofOption_eq_panic_iff {α} (k k' : PanicKind) (o : Option α) :
+    Outcome.ofOption k o = .panic k' ↔ (o = none ∧ k' = k) := by
+  cases o <;> simp [Outcome.ofOption, eq_comm]
+
+theorem panicOnNone_ok (o : Option Dec) : panicOnNone (.ok o) = Outcome.ofOption .overflow o := by
+  cases o <;> rfl
+
+theorem panicOnNone_eq_ok_iff (r : Outcome (Option Dec)) (d : Dec) : panicOnNone r = .ok d ↔ r = .ok (some d) := by
+  cases r with
+  | panic k => simp [panicOnNone]
+  | ok o => cases o <;> simp [panicOnNone]
+
+theorem panicOnNone_eq_panic_iff (r : Outcome (Option Dec)) (k : PanicKind) :
+    panicOnNone r = .panic k ↔ ((r = .ok none ∧ k = .overflow) ∨ r = .panic k) := by
+  cases r with
+  | panic k' => simp [panicOnNone]
+  | ok o => cases o <;> simp [panicOnNone, eq_comm]
+
+/-- a checked outcome that the spec allows is not a panic (the two expectations that allow a panic excluded) -/
+theorem allowedChecked_no_panic (e : Spec.Exp) (r : Outcome (Option Dec))
+    (h : Spec.allowedChecked e (outOptPair r) = true) (h1 : e ≠ .nfrac) (h2 : e ≠ .any) : ∃ o, r = .ok o := by
+  cases r with
+  | ok o => exact ⟨o, rfl⟩
+  | panic k => cases e <;> simp [Spec.allowedChecked] at h h1 h2
+
+theorem opOfChecked_eq_ok_iff (z : Bool) (r : Outcome (Option Dec)) (d : Dec) :
+    opOfChecked z r = .ok d ↔ (z = false ∧ r = .ok (some d)) := by
+  cases z
+  · cases r with
+    | panic k => simp [opOfChecked]
+    | ok o => cases o <;> simp [opOfChecked]
+  · simp [opOfChecked]
+
+theorem opOfChecked_eq_panic_iff (z : Bool) (r : Outcome (Option Dec)) (k : PanicKind) :
+    opOfChecked z r = .panic k ↔
+      ((z = true ∧ k = .divzero) ∨ (z = false ∧ r = .ok none ∧ k = .overflow) ∨ (z = false ∧ r = .panic k)) := by
+  cases z
+  · cases r with
+    | panic k' => simp [opOfChecked]
+    | ok o => cases o <;> simp [opOfChecked, eq_comm]
+  · simp [opOfChecked, eq_comm]
+
+theorem checkedOfChecked_eq_some_iff (z : Bool) (r : Outcome (Option Dec)) (d : Dec) :
+    checkedOfChecked z r = .ok (some d) ↔ (z = false ∧ r = .ok (some d)) := by
+  cases z <;> simp [checkedOfChecked]
+
+theorem checkedOfChecked_eq_none_iff (z : Bool) (r : Outcome (Option Dec)) :
+    checkedOfChecked z r = .ok none ↔ (z = true ∨ r = .ok none) := by
+  cases z <;> simp [checkedOfChecked]
+
+theorem checkedOfChecked_eq_panic_iff (z : Bool) (r : Outcome (Option Dec)) (k : PanicKind) :
+    checkedOfChecked z r = .panic k ↔ (z = false ∧ r = .panic k) := by
+  cases z <;> simp [checkedOfChecked]
+
+/-! the operator form `opOfChecked z r` against the checked form `checkedOfChecked z r` of one shared body `r` (`z`: the zero-divisor
+    test): `/`, `%` with integer operands and `%` on Decimals are modelled this way -/
+
+/-- `Some(d)` exactly when the operator returns `d` -/
+theorem checked_some_iff_op_ok (z : Bool) (r : Outcome (Option Dec)) (d : Dec) :
+    checkedOfChecked z r = .ok (some d) ↔ opOfChecked z r = .ok d := by
+  rw [checkedOfChecked_eq_some_iff, opOfChecked_eq_ok_iff]
+
+/-- the checked form does not panic when the shared body does not -/
+theorem checked_form_no_panic (z : Bool) (r : Outcome (Option Dec)) (h : z = false → ∃ o, r = .ok o) :
+    ∃ o, checkedOfChecked z r = .ok o := by
+  cases z
+  · obtain ⟨o, ho⟩ := h rfl
+    exact ⟨o, by simp [checkedOfChecked, ho]⟩
+  · exact ⟨none, rfl⟩
+
+/-- `None` exactly when the operator panics — with the division-by-zero panic or the overflow panic -/
+theorem checked_none_iff_op_panic (z : Bool) (r : Outcome (Option Dec)) (h : z = false → ∃ o, r = .ok o) :
+    checkedOfChecked z r = .ok none ↔ (opOfChecked z r = .panic .divzero ∨ opOfChecked z r = .panic .overflow) := by
+  cases z
+  · obtain ⟨o, ho⟩ := h rfl
+    subst ho
+    cases o <;> simp [checkedOfChecked, opOfChecked]
+  · simp [checkedOfChecked, opOfChecked]
+
+/-- the division-by-zero panic exactly for a zero divisor, the overflow panic exactly for `None` with a non-zero divisor -/
+theorem op_divzero_iff (z : Bool) (r : Outcome (Option Dec)) (h : z = false → ∃ o, r = .ok o) :
+    opOfChecked z r = .panic .divzero ↔ z = true := by
+  cases z
+  · obtain ⟨o, ho⟩ := h rfl
+    subst ho
+    cases o <;> simp [opOfChecked]
+  · simp [opOfChecked]
+
+theorem op_overflow_iff (z : Bool) (r : Outcome (Option Dec)) :
+    opOfChecked z r = .panic .overflow ↔ (z = false ∧ (r = .ok none ∨ r = .panic .overflow)) := by
+  cases z
+  · cases r with
+    | panic k => simp [opOfChecked]
+    | ok o => cases o <;> simp [opOfChecked]
+  · simp [opOfChecked]
+
+theorem op_panic_kind (z : Bool) (r : Outcome (Option Dec)) (k : PanicKind) (h : z = false → ∃ o, r = .ok o)
+    (hk : opOfChecked z r = .panic k) : k = .divzero ∨ k = .overflow := by
+  cases z
+  · obtain ⟨o, ho⟩ := h rfl
+    subst ho
+    cases o <;> simp [opOfChecked] at hk
+    exact Or.inr hk.symm
+  · simp [opOfChecked] at hk
+    exact Or.inl hk.symm
+
+/-- an operator outcome allowed by an exact expectation is that value -/
+theorem ok_of_allowed_val {o : Outcome Dec} {c : Int} {q : Nat} (h : Spec.allowedOp (.val c q) (outPair o) = true) :
+    o = .ok ⟨c, q⟩ := by
+  cases o with
+  | panic k => simp [Spec.allowedOp] at h
+  | ok d =>
+    obtain ⟨c', q'⟩ := d
+    simp [Spec.allowedOp] at h
+    rw [h.1, h.2]
+
+/-- an exact multiple of the divisor is its own rounding, in every mode … -/
+theorem specRound_exact_mul (tm : Mode) (k t : Int) (ht : 0 < t) : Spec.specRound tm (k * t) t = k := by
+  unfold Spec.specRound
+  simp [Int.mul_emod_left, Int.mul_ediv_cancel k (Int.ne_of_gt ht)]
+
+/-- … for a divisor of either sign -/
+theorem specRoundQ_exact_mul (tm : Mode) (k d : Int) (hd : d ≠ 0) : Spec.specRoundQ tm (k * d) d = k := by
+  unfold Spec.specRoundQ
+  by_cases h : d < 0
+  · simp only [h, if_true]
+    rw [← Int.mul_neg]
+    exact specRound_exact_mul tm k (-d) (by omega)
+  · simp only [h, if_false]
+    exact specRound_exact_mul tm k d (by omega)
+
+/-- `2^127` is not a multiple of ten: a coefficient scaled by at least one digit is never `i128::MIN` -/
+theorem mul_pow10_ne_min (k : Int) (m : Nat) (hm : 0 < m) : k * (10 : Int) ^ m ≠ I128_MIN := by
+  obtain ⟨j, rfl⟩ : ∃ j, m = j + 1 := ⟨m - 1, by omega⟩
+  have e : k * (10 : Int) ^ (j + 1) = 10 * (k * (10 : Int) ^ j) := by
+    rw [Int.pow_succ, Int.mul_comm ((10 : Int) ^ j) 10, Int.mul_left_comm]
+  rw [e]
+  generalize k * (10 : Int) ^ j = z
+  unfold I128_MIN; omega
+
+/-- a value returned against a `valFit` expectation is the expected one, and it fits -/
+theorem of_valFit_ok {c c' : Int} {q q' : Nat} (h : Spec.allowedOp (Spec.valFit c q) (.ok (c', q')) = true) :
+    c' = c ∧ q' = q ∧ fitsI128 c = true := by
+  rw [valFit_eq] at h
+  by_cases hm : c = I128_MIN
+  · simp [hm, Spec.allowedOp] at h
+    refine ⟨by rw [h.1, hm], h.2, ?_⟩
+    rw [hm]; decide
+  · by_cases hf : fitsI128 c = true
+    · simp [hm, hf, Spec.allowedOp] at h
+      exact ⟨h.1, h.2, hf⟩
+    · simp [hm, hf, Spec.allowedOp] at h
+
+/-- away from `i128::MIN` the expectation `valFit` is sharp -/
+theorem valFit_of_fits {c : Int} (p : Nat) (hm : c ≠ I128_MIN) (hf : fitsI128 c = true) : Spec.valFit c p = .val c p := by
+  rw [valFit_eq]; simp [hm, hf]
+
+theorem valFit_of_unfit {c : Int} (p : Nat) (hf : fitsI128 c = false) : Spec.valFit c p = .ovf := by
+  have hm : c ≠ I128_MIN := by intro h; rw [h] at hf; exact absurd hf (by decide)
+  rw [valFit_eq]; simp [hm, hf]
+
 end Fpdec
